@@ -113,6 +113,11 @@ impl Arc {
 
             trace!(state = ?self.state, ref_cnt = ?state.ref_cnt, %location, "Arc::ref_dec");
 
+            // Execution has deadlocked, cleanup does not matter.
+            if !execution.threads.is_active() {
+                return state.ref_cnt == 0;
+            }
+
             // Synchronize the threads.
             state
                 .synchronize
